@@ -5,6 +5,7 @@
 -/
 import RoModel.DriverCore
 import RoModel.ObsNil
+import RoModel.ObsPartial
 namespace Ro.Driver.Drivers.NilObs
 open Ro Ro.Driver
 
@@ -24,7 +25,40 @@ def parsePlan (s : String) : Option (List (Nat × Err)) :=
       | _, _ => none
     | _ => none
 
+/-- `ctor=`: the partial observers and NewObserver (observer.go:67-82, 204-263); the second component: the user's callback
+    receives the context -/
+def parseCtor : String → Option (ObsPartial.Ctor × Bool)
+  | "OnNext" => some (.onNext, false)
+  | "OnNextWithContext" => some (.onNext, true)
+  | "OnError" => some (.onError, false)
+  | "OnErrorWithContext" => some (.onError, true)
+  | "OnComplete" => some (.onComplete, false)
+  | "OnCompleteWithContext" => some (.onComplete, true)
+  | "Noop" => some (.noop, true)
+  | "NewObserver" => some (.full, false)
+  | _ => none
+
+def renderSeen (withCtx : Bool) (l : List (Notif Int)) : String :=
+  if withCtx then renderTrace l else if l.isEmpty then "-" else ",".intercalate (l.map renderNotifBare)
+
+def runPartial (c : Case) (k : ObsPartial.Ctor) (withCtx : Bool) : String :=
+  let sub := parseCtx (c.getD "sub" "-")
+  match parseScript sub (c.getD "src" "-"), parsePlan (c.getD "faults" "-") with
+  | some script, some plan =>
+    let fault : Nat → Option Err := fun k => (plan.find? (·.1 == k)).map (·.2)
+    let r := ObsPartial.run k fault script
+    let errs := if r.unhandled.isEmpty then "-" else ",".intercalate (r.unhandled.map renderErr)
+    let drops := if r.dropped.isEmpty then "-" else ",".intercalate (r.dropped.map renderNotifBare)
+    s!"res {c.id} trace={renderSeen withCtx r.seen} drops={drops} unh={errs} esc=-"
+  | _, _ => s!"res {c.id} bad-case"
+
 def run (c : Case) : String :=
+  match c.get "ctor" with
+  | some name =>
+    match parseCtor name with
+    | some (k, w) => runPartial c k w
+    | none => s!"res {c.id} unsupported"
+  | none =>
   let sub := parseCtx (c.getD "sub" "-")
   match parseScript sub (c.getD "src" "-"), parsePlan (c.getD "faults" "-") with
   | some script, some plan =>
